@@ -127,6 +127,7 @@ type X struct {
 	polarity       int
 	noFacts        int
 	entryState     *State
+	firedAsserts   map[int]bool
 	rsMemo         map[*ssa.Function]*writeSet
 	rsBusy         map[*ssa.Function]bool
 	topSpec        *FuncSpec // contract of the function under verification
